@@ -106,3 +106,66 @@ pub proof fn lemma_sonic_pairing_sum_is_bsum(e: Seq<(Option<usize>, G1)>, cs: Se
     ensures sonic_pairing_sum(e, vk, k) == sonic_bsum(e, cs, s, vk, n, k)
     decreases k
 { if k > 0 { lemma_sonic_pairing_sum_is_bsum(e, cs, s, vk, n, (k - 1) as nat); let b = sonic_bucket(cs, s, None, e[k - 1].0, n); ax_add_comm(f_zero(), b); ax_add_zero(b); } }
+
+// ---------------- C02: the accepted combined value is unique, and so is each claimed value with a non-zero challenge ----------------
+pub proof fn lemma_sonic_values_position(vs: Seq<Fr>, vs2: Seq<Fr>, s: SS, k: nat, i: int)
+    requires k <= vs.len(), k <= vs2.len(), 0 <= i, forall|j: int| 0 <= j < k && j != i ==> vs[j]@ == vs2[j]@
+    ensures sonic_values(vs, s, k) == f_add(sonic_values(vs2, s, k), if i < k { f_mul(f_sub(vs[i]@, vs2[i]@), sp_chal(s, i as nat)) } else { f_zero() })
+    decreases k
+{
+    if k == 0 { ax_add_zero(f_zero()); }
+    else {
+        let j = (k - 1) as nat; let ji = j as int; let xi = sp_chal(s, j);
+        lemma_sonic_values_position(vs, vs2, s, j, i);
+        let a = sonic_values(vs2, s, j);
+        if ji == i {
+            ax_add_zero(a);
+            let v = vs[ji]@; let v2 = vs2[ji]@;
+            ax_mul_comm(f_sub(v, v2), xi); lemma_distrib_sub(xi, v, v2); ax_mul_comm(xi, v); ax_mul_comm(xi, v2);
+            let p = f_mul(v, xi); let p2 = f_mul(v2, xi);
+            ax_add_assoc(a, p2, f_sub(p, p2)); ax_add_comm(p, f_neg(p2)); ax_add_assoc(p2, f_neg(p2), p); ax_add_neg(p2); ax_add_comm(f_zero(), p); ax_add_zero(p);
+        } else {
+            let x = if i < ji { f_mul(f_sub(vs[i]@, vs2[i]@), sp_chal(s, i as nat)) } else { f_zero() };
+            let y = f_mul(vs2[ji]@, xi);
+            ax_add_assoc(a, x, y); ax_add_comm(x, y); ax_add_assoc(a, y, x);
+        }
+    }
+}
+// the equation `check_elems` decides, as a function of the combined value cv (everything else fixed)
+pub open spec fn sonic_eq(ps: FS, vk: &VerifierKey, z: FS, pr: &kzg10::Proof, cv: FS) -> bool {
+    f_add(f_add(ps, pair(f_neg(f_add(f_zero(), sonic_adjusted(vk, z, pr, cv))), vk.prepared_h@)), pair(f_neg(f_add(f_zero(), pr.w@)), vk.prepared_beta_h@)) == f_zero()
+}
+pub proof fn lemma_sonic_combined_value_unique(ps: FS, vk: &VerifierKey, z: FS, pr: &kzg10::Proof, cv1: FS, cv2: FS)
+    requires vk.g@ != f_zero(), vk.prepared_h@ != f_zero(), sonic_eq(ps, vk, z, pr, cv1), sonic_eq(ps, vk, z, pr, cv2)
+    ensures cv1 == cv2
+{
+    let h = vk.prepared_h@; let t = pair(f_neg(f_add(f_zero(), pr.w@)), vk.prepared_beta_h@);
+    let a1 = sonic_adjusted(vk, z, pr, cv1); let a2 = sonic_adjusted(vk, z, pr, cv2);
+    let p1 = pair(f_neg(f_add(f_zero(), a1)), h); let p2 = pair(f_neg(f_add(f_zero(), a2)), h);
+    // (ps + p1) + t == 0 == (ps + p2) + t
+    lemma_add_cancel(f_add(ps, p1), f_add(ps, p2), t);
+    ax_add_comm(ps, p1); ax_add_comm(ps, p2);
+    lemma_add_cancel(p1, p2, ps);
+    lemma_mul_cancel(f_neg(f_add(f_zero(), a1)), f_neg(f_add(f_zero(), a2)), h);
+    lemma_neg_neg(f_add(f_zero(), a1)); lemma_neg_neg(f_add(f_zero(), a2));
+    ax_add_comm(f_zero(), a1); ax_add_zero(a1); ax_add_comm(f_zero(), a2); ax_add_zero(a2);
+    assert(a1 == a2);
+    let b1 = f_sub(f_mul(vk.g@, cv1), f_mul(pr.w@, z)); let b2 = f_sub(f_mul(vk.g@, cv2), f_mul(pr.w@, z));
+    match pr.random_v { Some(rv) => { lemma_add_cancel(b1, b2, f_mul(vk.gamma_g@, rv@)); } None => {} }
+    lemma_sub_cancel_right(f_mul(vk.g@, cv1), f_mul(vk.g@, cv2), f_mul(pr.w@, z));
+    ax_mul_comm(vk.g@, cv1); ax_mul_comm(vk.g@, cv2);
+    lemma_mul_cancel(cv1, cv2, vk.g@);
+}
+pub proof fn lemma_sonic_value_unique_at(ps: FS, vk: &VerifierKey, z: FS, pr: &kzg10::Proof, vs: Seq<Fr>, vs2: Seq<Fr>, s: SS, k: nat, i: int)
+    requires vk.g@ != f_zero(), vk.prepared_h@ != f_zero(), k <= vs.len(), k <= vs2.len(), 0 <= i < k, forall|j: int| 0 <= j < k && j != i ==> vs[j]@ == vs2[j]@,
+        sp_chal(s, i as nat) != f_zero(), sonic_eq(ps, vk, z, pr, sonic_values(vs, s, k)), sonic_eq(ps, vk, z, pr, sonic_values(vs2, s, k))
+    ensures vs[i]@ == vs2[i]@
+{
+    lemma_sonic_combined_value_unique(ps, vk, z, pr, sonic_values(vs, s, k), sonic_values(vs2, s, k));
+    lemma_sonic_values_position(vs, vs2, s, k, i);
+    let a = sonic_values(vs2, s, k); let d = f_mul(f_sub(vs[i]@, vs2[i]@), sp_chal(s, i as nat));
+    ax_add_zero(a); ax_add_comm(a, d); ax_add_comm(a, f_zero());
+    lemma_add_cancel(d, f_zero(), a);
+    ax_no_zero_div(f_sub(vs[i]@, vs2[i]@), sp_chal(s, i as nat));
+    lemma_sub_zero_eq(vs[i]@, vs2[i]@);
+}
